@@ -84,7 +84,7 @@ def jsonable(o, maxel=400):
 class Recorder(object):
     """Per-process event sink.  Aggregates counts, keeps witnesses."""
 
-    MAX_WITNESS = 40
+    MAX_WITNESS = 300
 
     def __init__(self):
         self.reset()
@@ -109,15 +109,12 @@ class Recorder(object):
         c[0] += 1
         if not ok:
             c[1] += 1
-            nsame = sum(1 for w in self.witness if (w['property'], w['function'], w['clause']) == key
-                        and tuple(w.get('classes', ())) == tuple(classes))
-            if nsame < 3 and len(self.witness) < self.MAX_WITNESS:
+            k2 = (prop, func, clause, tuple(classes))
+            self.skips[k2] = self.skips.get(k2, 0) + 1
+            if self.skips[k2] <= 3 and len(self.witness) < self.MAX_WITNESS:
                 self.witness.append({'property': prop, 'function': func, 'clause': clause,
                                      'classes': list(classes), 'detail': jsonable(detail),
                                      'case': self.case, 'workload': self.prop})
-            else:
-                k2 = (prop, func, clause, tuple(classes))
-                self.skips[k2] = self.skips.get(k2, 0) + 1
         return ok
 
     def skip(self, prop, func, clause):
